@@ -76,6 +76,12 @@ func init() {
 			x := fr.x
 			return x.strEq(Str{x.bytesOf(a[0])}, Str{x.bytesOf(a[1])})
 		},
+		zz + "AtomicOps": func(fr *frame, a []Value) Value { return fr.x.f.Const(64, uint64(fr.x.atomicOps)) },
+		zz + "TimeFromUnixNano": func(fr *frame, a []Value) Value {
+			x := fr.x
+			// abstract time tagged with its UnixNano value: sec field carries it, marker nsec
+			return Struct{x.f.Const(64, 0xffffffffffffffff), a[0].(*Term), (*Value)(nil)}
+		},
 		zz + "Symbolic": func(fr *frame, a []Value) Value { return fr.x.f.Bool(true) },
 		zz + "SameBacking": func(fr *frame, a []Value) Value {
 			s1, s2 := a[0].(Slice), a[1].(Slice)
